@@ -571,7 +571,8 @@ impl PathRouter {
                             let stripped: String = parsed_prefix
                                 .raw
                                 .chars()
-                                .dropping_back(details.end - details.start)
+                                // `start` and `end` are the positions of the braces, both included.
+                                .dropping_back(details.end - details.start + 1)
                                 .collect();
                             fallback_path = Some(format!("{stripped}{{*catch_all}}"));
                         }
